@@ -8,7 +8,13 @@ P("C29",
             "network runs (mesh 2D/3D, PCIe trees, NVLink/PCIe hybrids, generic switch graphs; serial engine, scripted devices that "
             "send and drain, run to quiescence) + exact tie of the traffic inside the network to the C30/C31 models (flits per message, "
             "switches visited) + abstract bounded-channel network with arbitration oracle (conservation, deadlock freedom, termination)",
-  level_text="under construction",
+  level_text="Theorems: c29_accepts_sound (the acceptor every real run is checked against is sound for the declarative statement), with corollaries "
+             "c29_metadata_intact (every receive is at the destination port and identical - ID, Src, Dst, RspTo, TrafficClass, TrafficBytes - to a strictly earlier send), "
+             "c29_no_duplicates, c29_all_delivered_at_end; at the abstract level (bounded FIFO channels, arbitrary arbitration oracle, devices always accept) "
+             "c29_conservation (nothing lost or duplicated under any schedule) and c29_delivery_progress (no deadlock under a channel ranking, every move brings a "
+             "packet closer, every maximal execution hands every packet to its device exactly once, and one exists within measure moves); c29_mesh_channel_ranking "
+             "discharges the ranking hypothesis for dimension-order mesh routing. Every run of the check executes real mesh 2D/3D, PCIe, NVLink/PCIe and generic "
+             "networks to quiescence, feeds the device-port event list to the acceptor inside Coq, and ties flit counts and switch paths of the real traffic to the C31/C30 models.",
   level_note="PARTIAL: the switch pipeline internals (receive pipeline, route/forward/send-out buffers, round-robin arbitration) are "
              "not modelled line by line; they are covered by trace inclusion of sampled real runs and by the abstract channel network.",
   assumptions=["message IDs handed to the network are unique and the sending port is the message's Src (generator obligation, re-checked by the acceptor)",
